@@ -67,6 +67,13 @@ def curated():
     out.append(('optable-entry', dict(name=None, extends=None, stmts=[
         ('rule', 'start', None, ('optable', ('ref', 'N'), [('prefix', [('str', '-')]), ('left', [('str', '+')])])),
         ('class', 'N', None, [('field', 'd', T)])])))
+    TAG = ('class', 'Tag', None, [('field', 'o', ('str', '<')), ('field', 'w', ('re', '[ab]+', False)), ('field', 'c', ('str', '>'))])
+    out.append(('lookahead-class', dict(name=None, extends=None, stmts=[
+        ('rule', 'start', None, ('right', ('str', '!'), ('expect', ('ref', 'Tag')))), TAG])))
+    out.append(('lookahead-class-list', dict(name=None, extends=None, stmts=[
+        ('rule', 'start', None, ('seq', [('opt', ('str', '!')), ('expect', ('ref', 'Tag')), ('opt', ('str', '<'))])), TAG])))
+    out.append(('backtrack-class', dict(name=None, extends=None, stmts=[
+        ('rule', 'start', None, ('seq', [('ref', 'Tag'), ('backtrack', 2), ('opt', ('re', '[ab]', False))])), TAG])))
     out.append(('multi-line-class', dict(name=None, extends=None, stmts=[
         ('rule', 'start', None, ('star', ('ref', 'L'))),
         ('class', 'L', None, [('field', 'w', ('re', '[ab]*', False)), ('field', 'nl', ('str', '\n'))])])))
@@ -146,7 +153,10 @@ def run_shard(rec):
         idx += 1
         if rec.mine(idx):
             alpha = 'ab\n' if 'multi-line' in tag else ('axy' if 'empty-class' in tag else ('a+-' if tag == 'optable-entry' else 'ab'))
-            run_one(rec, G, ('curated', tag), alpha, 4 if quick else 5)
+            if 'lookahead-class' in tag or 'backtrack-class' in tag:
+                alpha = 'a<>!'
+            run_one(rec, G, ('curated', tag), alpha, 5 if quick else 6,
+                    shiftable=('backtrack' not in tag))
     n = 80 if quick else 1500
     for i in range(n):
         if rec.out_of_time():
